@@ -166,7 +166,7 @@ func extractCloseShape(f *ast.File) (closeShape, error) {
 
 type timerShape struct {
 	regLocked, regStores, locked, deletes, closes, unconditional bool
-	timerArg                                                      string
+	timerArg                                                     string
 }
 
 func extractTimerShape(f *ast.File) (timerShape, error) {
